@@ -5,6 +5,7 @@ go 1.22
 require (
 	github.com/cube2222/octosql v0.0.0
 	github.com/valyala/fastjson v1.6.3
+	github.com/segmentio/parquet-go v0.0.0-20220421002521-93f8e5ed3407
 	google.golang.org/protobuf v1.30.0
 )
 
@@ -39,3 +40,4 @@ require (
 )
 
 replace github.com/cube2222/octosql => /repo
+replace github.com/segmentio/parquet-go v0.0.0-20220421002521-93f8e5ed3407 => github.com/cube2222/parquet-go v0.0.0-20220512155810-0e06eee50261
